@@ -150,16 +150,27 @@ template <class T> static void rotations (int k)
         rec<T> ("M44.setEulerAngles.det", ANG[cls], fabsl (det3 (toL (m, 4)) - 1), 12, in);
     }
     {   // Matrix44 setAxisAngle: any non-zero axis (graded magnitude, also axis-aligned)
-        int am = (k / 5) % 4;
+        int am = (k / 5) % 5;
         Vec3<T> ax;
         if (am == 0) ax = Vec3<T> ((T) U (-1, 1), (T) U (-1, 1), (T) U (-1, 1));
         else if (am == 1) { ax = Vec3<T> (0, 0, 0); ax[I (0, 2)] = (T) (I (0, 1) ? 3 : -0.5); }
         else if (am == 2) ax = Vec3<T> ((T) U (-1, 1), (T) U (-1, 1), (T) U (-1, 1)) * (T) std::pow (2.0, I (-30, 30));
-        else ax = Vec3<T> ((T) I (-3, 3), (T) I (-3, 3), (T) (I (0, 1) ? 1 : -2));
-        if (ax.length2 () == 0) ax.x = 1;
+        else if (am == 3) ax = Vec3<T> ((T) I (-3, 3), (T) I (-3, 3), (T) (I (0, 1) ? 1 : -2));
+        else
+        {
+            // huge and tiny axis magnitudes: |axis|^2 overflows / underflows (length() must take its lengthTiny path) while |axis| itself
+            // is representable: 1e-30..1e30 at float, 1e-200..1e200 at double
+            double e = std::is_same<T, float>::value ? U (-30, 30) : U (-200, 200);
+            if (k % 3 == 0) e = (e < 0 ? -1 : 1) * (std::is_same<T, float>::value ? U (20, 30) : U (155, 200));
+            ax = Vec3<T> ((T) U (-1, 1), (T) U (-1, 1), (T) U (-1, 1)) * (T) std::pow (10.0, e);
+            T l2 = ax.length2 ();
+            ++hits[std::string ("axis-magnitude:") + Nm<T>::n + (std::isinf ((double) l2) ? ":huge(|axis|^2 overflows)" : l2 < 2 * std::numeric_limits<T>::min () ? ":tiny(|axis|^2 underflows)" : ":moderate")];
+        }
+        if (ax.x == 0 && ax.y == 0 && ax.z == 0) ax.x = 1;
         T a = angle<T> (cls);
         Matrix44<T> m; m.setAxisAngle (ax, a);
         std::string in = "axis=" + sv (ax) + " angle=" + std::to_string ((double) a);
+        if (am == 4) ++hits["axis:huge-or-tiny-magnitude"];
         LM w = axisAngleL (ax.x, ax.y, ax.z, a);
         cmpEntries<T> ("M44.setAxisAngle.entries", ANG[cls], toL (m, 4), w, 4, 12, in);
         rec<T> ("M44.setAxisAngle.orthonormal", ANG[cls], orthoErr (toL (m, 4), 3), 24, in);
